@@ -391,7 +391,13 @@ def translate_guards(net) -> list:
 
     # --- snapshot: which verified peers are written? ------------------------------------------------------------------
     fn = _fn(N, "snapshot")
-    g = _find_if(fn, lambda n: any(_callname(x) == "pack" for st in n.body for x in ast.walk(st)), "snapshot")
+    # the write condition is either the `if` around `out += pack(...)` or the filter of a comprehension / generator whose
+    # element is the `pack(...)` call (`b"".join(pack(..) for peer in … if <condition>)`)
+    gens = [n for n in ast.walk(fn) if isinstance(n, (ast.GeneratorExp, ast.ListComp)) and n.generators[0].ifs
+            and any(_callname(x) == "pack" for x in ast.walk(n.elt))]
+    ifs_ = [n for n in ast.walk(fn) if isinstance(n, ast.If) and any(_callname(x) == "pack" for st in n.body for x in ast.walk(st))]
+    if len(gens) + len(ifs_) != 1:
+        raise TranslatorError(f"snapshot: expected exactly one guarded pack(...), found {len(gens) + len(ifs_)}")
 
     def a6(n):
         if isinstance(n, ast.Attribute) and n.attr == "address":
@@ -404,7 +410,8 @@ def translate_guards(net) -> list:
                 return ("isZeroAddress", neg)
         return None
     L.append("/-- `if <this>: out += pack(\"address\", peer.address)` -/")
-    L.append("def snapshotKeep (addressTruthy isZeroAddress : Bool) : Bool := " + _bool_expr(g.test, a6, "snapshot"))
+    L.append("def snapshotKeep (addressTruthy isZeroAddress : Bool) : Bool := "
+             + (_comp_cond(gens[0], a6, "snapshot") if gens else _bool_expr(ifs_[0].test, a6, "snapshot")))
 
     # --- get_walkable_addresses: the old-style skip ---------------------------------------------------------------------
     fn = _fn(N, "get_walkable_addresses")
